@@ -87,11 +87,44 @@ def run(ctx):
             ctx.cov["binding_selftest"].append({"corrupted": "contents[0].ver+1", "rejected": ok})
             if not ok:
                 raise vlib.Infra("binding self-test: corrupted trace was accepted")
+    first_access(ctx, quick)
     ctx.assumptions += [
         "real-thread histories sample schedules; they do not enumerate interleavings inside the collection mutex",
         "creation-time classes are compared in the sequential replay only",
         "the runtime's cached wrapper is excluded (eventual consistency is C15's subject)",
     ]
+
+
+def first_access(ctx, quick):
+    """S3c: histories that start on a restarted persistent-backed state whose first access is made by two clients at once
+    (one parked inside the backing store's Load): driver and judge of C10 (TracePersist, raceread lines)."""
+    n = 36 if quick else 600
+    behs = vlib.gen_behaviours(ctx, "GenPersist", "GenPersist.cfg", num=n, depth=20, name="gen-firstaccess",
+                               env={"GEN_DEPTH": 14 if quick else 20})[:n]
+    for b in behs:
+        for i, st in enumerate(b):
+            st["fault"] = "crashRace" if i % 3 == 2 else "none"
+    inp = os.path.join(ctx.scratch, "fbehs.json")
+    json.dump(behs, open(inp, "w"))
+    binary = vlib.go_build_test(ctx, "c10")
+    out = os.path.join(ctx.scratch, "firstaccess.ndjson")
+    vlib.go_run(ctx, binary, "TestPersist", {"VERIF_IN": inp, "VERIF_OUT": out}, timeout=1500)
+    recs = vlib.read_ndjson(out)
+    traces = vlib.split_traces(recs)
+    mism, consumed, r = vlib.validate(ctx, "TracePersist", "TracePersist.cfg", out, timeout=1500, name="val-firstaccess")
+    if consumed != len(recs):
+        raise vlib.Infra("TracePersist consumed %s of %d\n%s" % (consumed, len(recs), r.out[-2000:]))
+    details = [x for x in r.out.splitlines() if x.startswith('<<"DETAIL"')]
+    ctx.cov["behaviours_replayed"] += len(behs)
+    ctx.cov["traces_validated_against_impl"] += len(traces)
+    ctx.cov["concurrent_first_accesses_after_restart"] = len([x for x in recs if x["ev"] == "raceread"]) // 2
+    for i, line in enumerate(mism):
+        m = re.match(r'<<"MISMATCH", "([^"]*)", (\d+), "([^"]*)">>', line)
+        tid, lno, what = m.group(1), int(m.group(2)), m.group(3)
+        ctx.violation("persistent/%s/%s" % (what, recs[lno - 1].get("req", {}).get("op", "")),
+                      "persistent-backed state, %s at line %d: %s" % (what, lno, (details[i] if i < len(details) else "")[:600]),
+                      {"tid": tid, "line": lno, "behaviour": behs[int(tid.split("#")[1])],
+                       "trace": [t for t in traces if t[0] == tid][0][1][:lno + 1]})
 
 
 def _stack_family(stack):
